@@ -7,9 +7,14 @@ use std::sync::{Mutex, OnceLock};
 static TICKS: AtomicU64 = AtomicU64::new(0);
 static CURRENT: Mutex<String> = Mutex::new(String::new());
 static OUT: OnceLock<(String, String)> = OnceLock::new();
+static PAUSED: AtomicU64 = AtomicU64::new(0);
 const LIMIT_S: u64 = 60;
+/// outside an enter/leave bracket: no evaluated case and no model answer for this long (the brackets are an optimisation - a
+/// property harness that forgets them must still never hang the check; seeded change C07_5 hung the C09 harness for an hour)
+static GLOBAL_LIMIT: AtomicU64 = AtomicU64::new(240);
 
-pub fn start(prop: &str, out_path: Option<&str>) {
+pub fn start(prop: &str, out_path: Option<&str>, thorough: bool) {
+    GLOBAL_LIMIT.store(if thorough { 900 } else { 240 }, Ordering::Relaxed);
     let _ = OUT.set((prop.to_string(), out_path.unwrap_or("").to_string()));
     std::thread::spawn(|| {
         let mut last = TICKS.load(Ordering::Relaxed);
@@ -17,18 +22,22 @@ pub fn start(prop: &str, out_path: Option<&str>) {
         loop {
             std::thread::sleep(std::time::Duration::from_secs(1));
             let now = TICKS.load(Ordering::Relaxed);
-            if now == last && !CURRENT.lock().unwrap().is_empty() {
+            let bracketed = !CURRENT.lock().unwrap().is_empty();
+            if now == last && (bracketed || PAUSED.load(Ordering::Relaxed) == 0) {
                 idle += 1;
             } else {
                 idle = 0;
                 last = now;
             }
-            if idle >= LIMIT_S {
+            if (bracketed && idle >= LIMIT_S) || idle >= GLOBAL_LIMIT.load(Ordering::Relaxed) {
                 let (prop, path) = OUT.get().cloned().unwrap_or_default();
-                let case = CURRENT.lock().unwrap().clone();
+                let mut case = CURRENT.lock().unwrap().clone();
+                if case.is_empty() {
+                    case = format!("(no case bracket: the call that hangs follows evaluation #{} of this run; re-run with VERIF_DEBUG=1 to see it)", now);
+                }
                 let v = J::obj()
                     .set("class_key", J::s("hang"))
-                    .set("what", J::s(&format!("a decoding call did not return within {} s", LIMIT_S)))
+                    .set("what", J::s(&format!("a call into the crate did not return within {} s", if bracketed { LIMIT_S } else { GLOBAL_LIMIT.load(Ordering::Relaxed) })))
                     .set("kind", J::s("oracle"))
                     .set("count", J::i(1))
                     .set("case", J::obj().set("kind", J::s("hang")).set("case", J::s(&case)));
@@ -53,5 +62,18 @@ pub fn enter(case: &str) {
 }
 pub fn leave() {
     CURRENT.lock().unwrap().clear();
+    TICKS.fetch_add(1, Ordering::Relaxed);
+}
+
+/// progress outside a bracket (an evaluated case, a model answer)
+pub fn tick() {
+    TICKS.fetch_add(1, Ordering::Relaxed);
+}
+/// the harness waits for the model driver (which has its own time limit per line)
+pub fn pause() {
+    PAUSED.fetch_add(1, Ordering::Relaxed);
+}
+pub fn resume() {
+    PAUSED.fetch_sub(1, Ordering::Relaxed);
     TICKS.fetch_add(1, Ordering::Relaxed);
 }
